@@ -162,8 +162,10 @@ def check(prog, run):
         if isinstance(n, ast.Call) and isinstance(n.func, ast.Name) and n.func.id == "Schema":
             ctor_kw = {k.arg for k in n.keywords}
     replaced = set()
+    from ..canon import Canon as _CanonM
+    _ccn = _CanonM(clone.node)
     for n in own_nodes(clone.node):
-        if isinstance(n, ast.Call) and isinstance(n.func, ast.Attribute) and n.func.attr == "_replace_types_and_directives":
+        if isinstance(n, ast.Call) and _ccn.func_text(n).endswith("._replace_types_and_directives"):      # a bound method named first included
             replaced = {k.arg for k in n.keywords}
     merges = any(isinstance(n, ast.Call) and isinstance(n.func, ast.Attribute) and n.func.attr == "merge_resolvers" for n in own_nodes(clone.node))
     for s in slots:
